@@ -13,6 +13,7 @@ mod wgen;
 mod harness;
 mod model;
 mod plans;
+mod scen_disk;
 mod scen_wire;
 mod wire;
 
